@@ -102,7 +102,8 @@ def _flatten_last_n_axes(a: Array, n: int) -> Array:
         jax.numpy.ndarray: Array a with flattened last n axes.
 
     """
-    return a.reshape(*a.shape[:-n], -1)
+    # Note: a.shape[:-n] would be empty for n = 0, i.e., all axes would be flattened
+    return a.reshape(*a.shape[: a.ndim - n], -1)
 
 
 # ======================================================================================
